@@ -55,6 +55,14 @@ CHECKS = {
    "rapid-generated single-goroutine Go programs (progen) covering the statement and expression forms of the language subset, bundled several scenarios per build and run one process per scenario in both worlds; trace lines and the way each scenario ends (exit, panic with message, run-time error class, deadlock) are compared with the reference toolchain; every emitted file must pass node --check and no build may fail",
    "trusts the native Go toolchain as reference; generated programs obey the documented differences (int stays inside 32 bits, println only with ASCII strings, no negative shifts) and avoid what the spec leaves open; the known finding C01-evalorder is excluded by construction (side-effecting calls are statements of their own)",
    "property-based differential testing of generated programs (rapid) with native Go as oracle"),
+ "C16": ("exploration",
+   "differential testing of rapid-generated programs (identifier pressure across the 26- and 702-name boundaries, shadowing, closures, labels, hostile string literals, adjacent signs) and the hand-written corpus: minified versus plain build of the same sources, both checked with node --check and run scenario by scenario under Node",
+   "no reference toolchain involved: the plain build is the oracle for the minified one (C01 relates the plain build to Go); Node is trusted",
+   "property-based differential (metamorphic) testing: minify on/off (rapid)"),
+ "C05": ("exploration",
+   "differential testing of rapid-generated programs (dynamic dispatch, generics, unreferenced look-alike declarations) and the hand-written corpus (linknames, cross-package dispatch, side-effecting initialisers): normal link versus a link with every declaration forced alive, both run scenario by scenario under Node",
+   "the all-alive link is the oracle (it is obtained by marking every declaration alive before the same program writer runs); Node is trusted",
+   "property-based differential (metamorphic) testing: dead-code elimination on/off (rapid)"),
 }
 PENDING_REASON = "check not built yet in this session (work in progress; see DESIGN.md §8 for the order)"
 props=[json.loads(l)['id'] for l in open('/verif/properties.jsonl')]
